@@ -291,7 +291,8 @@ class ObjectNode:
         # in built-in modules inconsistently lie about their module path,
         # so we prefer to use the non-underscored (public) version,
         # as users most likely import from the public module and not the private one.
-        if child_module_path.lstrip("_") in _builtin_module_names:
+        # A module object does not lie about its own name.
+        if not self.is_module and child_module_path.lstrip("_") in _builtin_module_names:
             child_module_path = child_module_path.lstrip("_")
 
         # Child object is a module, return its path directly.
